@@ -853,7 +853,7 @@ class dictable(Dict):
                 keys = keys[i:]
             return '\n\n'.join(res)
 
-    def sort(self, *by, **byval):
+    def sort(self, /, *by, **byval):
         """
         Sorts the table either using a key, list of keys or functions of members. Also allows sort on specific orders of the keys
         
